@@ -21,8 +21,25 @@ def rgbSel (col : Nat) : ColorSel := .rgb (Color.rgb col).1.toNat (Color.rgb col
     palette index (nearest palette entry for colours outside the palette) otherwise, default for invalid / reset -/
 def colSel (rc : RenderCfg) (col : Nat) : ColorSel :=
   if hasRGB rc && Color.isRGB col then rgbSel col
-  else if Color.valid col then .idx (Render.fitColor rc col % 256)
+  else if Color.valid col && decide (rc.ti.colors ≠ 0) then .idx (Render.fitColor rc col % 256)
   else .default
+
+/-- the colours `op` (ResetFgBg) leaves in the pen: the defaults — except on aixterm (green on black) and pcansi (white on
+    black), whose `op` sets colours -/
+def opSel (rc : RenderCfg) : ColorSel × ColorSel :=
+  if rc.ti.resetFgBg = opAix then (.idx 2, .idx 0) else if rc.ti.resetFgBg = opPc then (.idx 7, .idx 0) else (.default, .default)
+
+/-- foreground / background of a style with colours `fg`, `bg`: sendFgBg (tscreen.go:760) writes `op` when either is
+    `ColorReset`, then the colour strings for the valid ones — so a colour for which nothing is written shows what `op` left -/
+def fgSel (rc : RenderCfg) (fg bg : Nat) : ColorSel :=
+  if colSel rc fg = .default ∧ (fg = colorReset ∨ bg = colorReset) then (opSel rc).1 else colSel rc fg
+def bgSel (rc : RenderCfg) (fg bg : Nat) : ColorSel :=
+  if colSel rc bg = .default ∧ (fg = colorReset ∨ bg = colorReset) then (opSel rc).2 else colSel rc bg
+
+/-- monochrome terminals (`Colors == 0`, tscreen.go:741-758): a valid foreground colour that is nearer to black than to
+    white (`fit0` = `FindColor(fg, {black, white})`) is shown by flipping reverse video -/
+def monoFlip (rc : RenderCfg) (fg : Nat) : Bool :=
+  decide (rc.ti.colors = 0) && Color.valid fg && decide (rc.fit0 fg = Render.colorBlack)
 
 def ulSel (rc : RenderCfg) (uc : Nat) : ColorSel :=
   if rc.d.underColor.isEmpty then .default
@@ -47,12 +64,12 @@ def textOf (bs : Bytes) : String := String.ofList (decodeText true bs)
 /-- **the SGR state a tcell `Style` denotes on the terminal `rc`** (attributes the description has no string for are
     not shown; underline follows the underline *style*, as the code does) -/
 def penOf (rc : RenderCfg) (s : Style) : Pen :=
-  { fg := colSel rc s.fg, bg := colSel rc s.bg,
-    bold := bit s.attrs Render.attrBold,
+  { fg := fgSel rc s.fg s.bg, bg := bgSel rc s.fg s.bg,
+    bold := bit s.attrs Render.attrBold && !rc.ti.bold.isEmpty,
     dim := bit s.attrs Render.attrDim && !rc.ti.dim.isEmpty,
     italic := bit s.attrs Render.attrItalic && !rc.ti.italic.isEmpty,
     blink := bit s.attrs Render.attrBlink && !rc.ti.blink.isEmpty,
-    reverse := bit s.attrs Render.attrReverse,
+    reverse := (bit s.attrs Render.attrReverse != monoFlip rc s.fg) && !rc.ti.reverse.isEmpty,
     strike := bit s.attrs Render.attrStrike && !rc.ti.strikeThrough.isEmpty,
     ul := ulStyleOf rc s.ulStyle,
     ulColor := if s.ulStyle = 0 then .default else ulSel rc s.ulColor,
@@ -73,9 +90,18 @@ def CurRep (t : Term) (x y : Int) : Prop :=
   (x < t.grid.w → t.cx = x.toNat ∧ t.pendingWrap = false) ∧
   (x = t.grid.w → t.cx + 1 = t.grid.w ∧ t.pendingWrap = t.modes.autoMargin)
 
+/-- state the library cannot re-establish on a terminal whose description lacks the capability — so it has to hold from the
+    start and the environment must not disturb it: no hyperlink is active when the screen has no hyperlink strings
+    (tscreen.go:905 writes nothing then); the cursor is visible when there is no cursor-visibility string (`cnorm`/`civis`
+    absent: showCursor writes nothing, hideCursor parks the cursor in the bottom-right corner instead, tscreen.go:1037) -/
+structure Quiet (rc : RenderCfg) (t : Term) : Prop where
+  link : rc.d.enterUrl = [] → t.linkKnown = true ∧ t.pen.link = none
+  vis : rc.ti.hideCursor = [] → t.modes.cursorVisible = true
+
 /-- `Rep dc rc t a`: the byte-level emulator state `t` represents the abstract terminal `a` -/
 structure Rep (dc : DrawCfg) (rc : RenderCfg) (t : Term) (a : ATerm) : Prop where
   good : Good dc.rw t
+  quiet : Quiet rc t
   w : (t.grid.w : Int) = a.w
   h : (t.grid.h : Int) = a.h
   /-- wherever the abstract terminal claims something about a cell, the emulator grid shows it -/
@@ -315,7 +341,9 @@ theorem rep_transfer {dc : DrawCfg} {rc : RenderCfg} {t t' : Term} {a a' : ATerm
     (cells : ∀ i j : Nat, i < t'.grid.w → j < t'.grid.h → CellRep rc (t'.grid.get i j) (a'.grid i j))
     (conts : ∀ i j : Nat, (t'.grid.get (i + 1) j).cont = true → a'.grid ((i : Int) + 1) j = .cont ∨ a'.grid i j = .garbage)
     (cur : ∀ x y : Int, a'.cur = some (x, y) → 0 ≤ x → 0 ≤ y → CurRep t' x y) : Rep dc rc t' a' :=
-  { good := R.good.of_same s, w := by rw [s.w, hw]; exact R.w, h := by rw [s.h, hh]; exact R.h, cells := cells, conts := conts,
+  { good := R.good.of_same s,
+    quiet := ⟨fun h => by rw [s.linkKnown, s.pen]; exact R.quiet.link h, fun h => by rw [s.modes]; exact R.quiet.vis h⟩,
+    w := by rw [s.w, hw]; exact R.w, h := by rw [s.h, hh]; exact R.h, cells := cells, conts := conts,
     cur := cur,
     pen := by intro st h; rw [hpen] at h; rw [s.penKnown, s.linkKnown, s.pen]; exact R.pen st h,
     vis := by intro b h; rw [hvis] at h; rw [s.modes]; exact R.vis b h,
